@@ -79,7 +79,7 @@ func (c *CriteriaMixing) Apply(
 	referenceCriterion := referenceCriterion(current, listener, referenceCriterionProvider)
 	targetValRange := model.ValuesRangeWithGroundZero(&allAlternatives, referenceCriterion)
 	mixResult := c2m.mix(&allAlternatives, targetValRange, parsedProps)
-	newCriterion := c2m.criterion(targetValRange)
+	newCriterion := c2m.criterion(&current.Criteria, targetValRange)
 	criterionParams := (*listener).OnCriterionAdded(&newCriterion, referenceCriterion, current.MethodParameters, generator)
 	newMethodParams := (*listener).Merge(current.MethodParameters, criterionParams)
 	newAlternatives := updateAlternatives(allAlternatives, newCriterion, mixResult)
@@ -177,9 +177,9 @@ func (c *criteriaToMix) mix(
 	}
 }
 
-func (c *criteriaToMix) criterion(valRange *utils.ValueRange) model.Criterion {
+func (c *criteriaToMix) criterion(currentCriteria *model.Criteria, valRange *utils.ValueRange) model.Criterion {
 	return model.Criterion{
-		Id:          "__" + c.c1.Id + "+" + c.c2.Id + "__",
+		Id:          currentCriteria.NotUsedName("__" + c.c1.Id + "+" + c.c2.Id + "__"),
 		Type:        model.Gain,
 		ValuesRange: valRange,
 	}
